@@ -150,3 +150,25 @@ PROPS.update({
     "C06": _mach_prop(["symbolic bcrypt (the stored value verifies exactly the password it was made from); the 72-byte truncation of real bcrypt is known finding K2, exercised by the harness",
                        "token revocation is proven for UpdatePassword and for the remember hook on EventRecoverEnd under no storage fault"]),
 })
+
+PROPS.update({
+    "C08": {
+        "ties": ["Middleware", "Context", "Responder"],
+        "streams": {"quick": [{"name": "c08", "n": 600}, MACH_QUICK],
+                    "thorough": [{"name": "c08", "n": 20000, "seeds": 4}, MACH_THOROUGH]},
+        "level": "proof",
+        "assumptions": ["the wrapped handler is represented by an observable marker action in the 'only if' theorem",
+                        "path.Join / url.QueryEscape are modelled (PathClean.lean, Url.lean) and diffed against the stdlib through the real middleware; the middleware sees the decoded path (r.URL.Path) that net/http hands it"],
+        "trusted_base": ["net/http ServeMux routing in front of the middleware (real, under the harness)"],
+    },
+    "C19": {
+        "ties": ["Values", "Register", "Confirm"],
+        "streams": {"quick": [{"name": "c19", "n": 50000}, MACH_QUICK],
+                    "thorough": [{"name": "c19", "n": 500000, "seeds": 4}, MACH_THOROUGH]},
+        "level": "proof",
+        "assumptions": ["unicode classification, the regular expressions and the byte length are inputs computed by the harness with the real stdlib (not modelled)",
+                        "lengths are in bytes (the byte/character distinction is out of scope, as the property says)",
+                        SYMBOLIC],
+        "trusted_base": ["unicode, regexp (real, under the harness)"],
+    },
+})
